@@ -17,6 +17,11 @@ class D(B, C): ...
 class E: ...
 
 
+NodeA = type("Node", (), {})  # two distinct classes that share their __name__ (and a third, unrelated one)
+NodeB = type("Node", (), {})
+Node0 = type("Node0", (), {})
+
+
 class WithFoo:
     def foo(self): ...
 
@@ -159,7 +164,8 @@ def terms(depth=1):
     K["Product"] = [N(tuple[A, B]), N(tuple[B, C]), N(tuple[B, B]), N(tuple[A]), N(tuple[()]), N(tuple[int, str])]
     # members listed most-specific-first and least-specific-first (the order of a container against another type
     # must not depend on the position of the member that decides it); dependent types with wildcard parameters
-    K["Union"] += [U_(B, A), U_(A, B), U_(D, B, E)]
+    K["Class"] += [NodeA, NodeB, Node0]
+    K["Union"] += [U_(B, A), U_(A, B), U_(D, B, E), N(NodeA | NodeB), N(NodeB | Node0 | NodeA), N(NodeA | E)]
     K["Inter"] += [I_(A, B), I_(B, A), I_(Sized, tuple, A)]
     K["FuncDep"] += [Shape[2, typing.Any], Shape[typing.Any, 2], Shape[2, 2], Shape[typing.Any, typing.Any], Shape[2, 3, typing.Any], Shape[typing.Any, typing.Any, 5], Shape[2, typing.Any, typing.Any]]
     if depth >= 2:
